@@ -368,6 +368,106 @@ func C03Fixed() []*Scenario {
 	return out
 }
 
+// scOperand: error-wrap operands of every callable form the parser/compiler accept besides
+// `f(args)`: `f!` / `f?` / `f?:d` without parentheses (zero-argument auto-call), selector operands
+// (`c.get!` method values on a pointer receiver, through a field chain `h.c.get?`, through an index
+// `cs[0].get?:d`) and call results `mk()()!`.  Structs, methods and the package-level variables exist
+// only in the XGo text (XGoExtra) and delegate to the scenario's zero-argument functions; the model
+// and the documented expansion call those functions directly (harness-only surface: no structural tie).
+func (g *G) scOperand() *Scenario {
+	sfx := g.sfx
+	mkf := func(name string, vals int, ok bool) string {
+		res := []Param{}
+		var rets []*Expr
+		if vals == 1 {
+			res = append(res, Param{"", TInt})
+			if ok {
+				rets = append(rets, Int(7))
+			} else {
+				rets = append(rets, Int(0))
+			}
+		}
+		res = append(res, Param{"", TErr})
+		if ok {
+			rets = append(rets, Nil())
+		} else {
+			rets = append(rets, ErrLit("boom"+name))
+		}
+		g.funcs = append(g.funcs, &Func{Name: name + sfx, Results: res,
+			Body: []*Stmt{ExprS(Probe(g.id(), Int(len(g.funcs)))), Ret(rets...)}})
+		return name + sfx
+	}
+	ok0, bad0, ok1, bad1 := mkf("ok0", 0, true), mkf("bad0", 0, false), mkf("ok1", 1, true), mkf("bad1", 1, false)
+	extra := "type C" + sfx + " struct{ n int }\n\n" +
+		"func (c *C" + sfx + ") ping() error { return " + ok0 + "() }\n" +
+		"func (c *C" + sfx + ") pong() error { return " + bad0 + "() }\n" +
+		"func (c *C" + sfx + ") get() (int, error) { return " + ok1 + "() }\n" +
+		"func (c *C" + sfx + ") lose() (int, error) { return " + bad1 + "() }\n\n" +
+		"type H" + sfx + " struct{ c *C" + sfx + " }\n\n" +
+		"var c" + sfx + " = &C" + sfx + "{}\nvar h" + sfx + " = &H" + sfx + "{c: c" + sfx + "}\nvar cs" + sfx + " = []*C" + sfx + "{c" + sfx + "}\n\n" +
+		"func mk" + sfx + "(ok bool) func() (int, error) {\n\tif ok {\n\t\treturn " + ok1 + "\n\t}\n\treturn " + bad1 + "\n}\n\n"
+	// surface forms of an operand that, called, behaves like fn
+	form := func(fn string, vals int, ok bool) string {
+		meth := map[[2]bool]string{{false, true}: "ping", {false, false}: "pong", {true, true}: "get", {true, false}: "lose"}[[2]bool{vals == 1, ok}]
+		forms := []string{fn, "c" + sfx + "." + meth, "h" + sfx + ".c." + meth, "cs" + sfx + "[0]." + meth}
+		if vals == 1 {
+			forms = append(forms, fmt.Sprintf("mk%s(%v)()", sfx, ok))
+		}
+		return forms[g.r.Intn(len(forms))]
+	}
+	wrap := func(kind string, vals int, ok bool, d *Expr) *Expr {
+		fn := map[[2]bool]string{{false, true}: ok0, {false, false}: bad0, {true, true}: ok1, {true, false}: bad1}[[2]bool{vals == 1, ok}]
+		var tys []*Ty
+		if vals == 1 {
+			tys = []*Ty{TInt}
+		}
+		var e *Expr
+		switch kind {
+		case "bang":
+			e = ErrBang(fn, tys)
+		case "q":
+			e = ErrQ(fn, tys)
+		default:
+			e = ErrDflt(fn, TInt, d)
+		}
+		e.XSrc = form(fn, vals, ok)
+		return e
+	}
+	// `?` forms inside g(sel int): sel picks which statement fails
+	gname := "g" + sfx
+	gb := []*Stmt{
+		ExprS(wrap("q", 0, true, nil)),
+		Def1("x", wrap("q", 1, true, nil)),
+		ExprS(Probe(g.id(), Var("x"))),
+		If(Bin("eq", Var("sel"), Int(1)), []*Stmt{ExprS(wrap("q", 0, false, nil))}, nil),
+		If(Bin("eq", Var("sel"), Int(2)), []*Stmt{Def1("y", Bin("add", wrap("q", 1, false, nil), Int(1))), ExprS(Probe(g.id(), Var("y")))}, nil),
+		ExprS(Probe(g.id(), Int(77))),
+		Ret(Var("x"), Nil()),
+	}
+	g.funcs = append(g.funcs, &Func{Name: gname, Params: []Param{{"sel", TInt}}, Results: []Param{{"", TInt}, {"", TErr}}, Body: gb})
+	var body []*Stmt
+	for sel := 0; sel < 3; sel++ {
+		r, e := fmt.Sprintf("c%dr", sel), fmt.Sprintf("c%de", sel)
+		body = append(body, Define([]string{r, e}, Call(gname, Int(sel))), ExprS(Probe(g.id(), Var(r))), ExprS(Probe(g.id(), Var(e))))
+	}
+	// `?:` and `!`
+	body = append(body,
+		Def1("d1", Bin("add", wrap("dflt", 1, true, Probe(g.id(), Int(40))), wrap("dflt", 1, false, Probe(g.id(), Int(41))))),
+		ExprS(Probe(g.id(), Var("d1"))),
+		Def1("b1", Bin("mul", Int(2), wrap("bang", 1, true, nil))),
+		ExprS(Probe(g.id(), Var("b1"))),
+		ExprS(wrap("bang", 0, true, nil)))
+	if g.r.Bool() {
+		body = append(body, ExprS(wrap("bang", 0, false, nil)))
+	} else {
+		body = append(body, ExprS(Probe(g.id(), wrap("bang", 1, false, nil))))
+	}
+	body = append(body, ExprS(Probe(g.id(), Int(78))))
+	sc := g.finish("errwrap_operand", body)
+	sc.XGoExtra, sc.NoStruct = extra, true
+	return sc
+}
+
 // C03Scenario generates the i-th scenario of the C03 mix.
 func C03Scenario(r *vh.Rand, i int) *Scenario {
 	g := newG(r, fmt.Sprintf("_%d", i))
@@ -378,8 +478,10 @@ func C03Scenario(r *vh.Rand, i int) *Scenario {
 		return g.scBang(k-9, r.Chance(60))
 	case k == 15:
 		return g.scBang(g.r.Intn(2)*6, r.Chance(60)) // positions 0 (statements, command style) and 6
-	case k < 18:
+	case k == 16:
 		return g.scSurface()
+	case k == 17:
+		return g.scOperand()
 	default:
 		return g.scDflt()
 	}
